@@ -31,7 +31,7 @@ from vlib.timeops import (
     tick_datetime,
     triggers,
 )
-from vlib.values import canon
+from vlib.values import Tagged, canon
 
 PROPERTY_ID = "C15"
 LEVEL = "exploration"
@@ -48,7 +48,7 @@ RULE = (
     "one instant not judged; timestamp = (value, clock reading as datetime); time_interval = (value, time since previous "
     "element or since subscription). Non-trivial: delay: >=2 elements and some element still pending when a later notification "
     "arrives; delay_subscription: d>0 and >=1 element; delay_with_mapper: >=2 elements and >=1 duration firing strictly later "
-    "than its element; timestamp/time_interval: >=2 elements. Every check except delay_with_mapper_subdelay subscribes, in 1 case of 3, the same built observable a second time at a generated tick s1 in s0+{0,1,2,3,7} and applies the same oracle to that probe with its own subscribe tick (absolute due time D: expected shift D - s1). Scheduler passing: operators with a scheduler parameter (delay, delay_subscription, timestamp, time_interval) are run in three modes - sub (no argument, subscription carries scheduler=lab scheduler), arg (scheduler=lab scheduler as operator argument, subscription carries none), arg-other (argument as before, subscription carries a different never-started virtual scheduler whose clock reads +1000 ticks; not for delay_subscription) - and must behave identically; one in four duration / subscription-delay observables of delay_with_mapper is a scheduler-less library factory (timer(d), empty(), return_value, never) that must inherit the subscribe-time scheduler. Any request for the real-time TimeoutScheduler during a run is refused and reported (realtime-fallback), any action left on the decoy scheduler is reported (wrong-scheduler). Thorough tier goes deeper: up to 10 elements per timeline (8 for delay_with_mapper), half of them dense (gaps 0-2), delays up to 8 ticks. Distinct = distinct case JSON."
+    "than its element; timestamp/time_interval: >=2 elements. Every check except delay_with_mapper_subdelay subscribes, in 1 case of 3, the same built observable a second time at a generated tick s1 in s0+{0,1,2,3,7} and applies the same oracle to that probe with its own subscribe tick (absolute due time D: expected shift D - s1). Scheduler passing: operators with a scheduler parameter (delay, delay_subscription, timestamp, time_interval) are run in three modes - sub (no argument, subscription carries scheduler=lab scheduler), arg (scheduler=lab scheduler as operator argument, subscription carries none), arg-other (argument as before, subscription carries a different never-started virtual scheduler whose clock reads +1000 ticks; not for delay_subscription) - and must behave identically; one in four duration / subscription-delay observables of delay_with_mapper is a scheduler-less library factory (timer(d), empty(), return_value, never) that must inherit the subscribe-time scheduler. Any request for the real-time TimeoutScheduler during a run is refused and reported (realtime-fallback), any action left on the decoy scheduler is reported (wrong-scheduler). Thorough tier goes deeper: up to 10 elements per timeline (8 for delay_with_mapper), half of them dense (gaps 0-2), delays up to 8 ticks. Re-entrant feedback (check delay_feedback): delay(d) over a hot source into which the downstream, from inside the delivery of its k-th delayed element, synchronously pushes an error (must be delivered at that instant, pending elements dropped) or a new element (due d later); reference run enumerates both orders of deliveries and source notifications of one instant. Distinct = distinct case JSON."
 )
 ASSUMPTIONS = [
     "absolute datetimes passed to delay/delay_subscription are not earlier than the subscription instant",
@@ -117,6 +117,82 @@ def _judge_delay(case, lab, p, s):
     if depth >= 7:
         cls.append("pending>=7")
     return judge("delay", case, lab, p, outcomes(lambda ch: _exp_delay(eff, d, ch)), cls, n >= 2 and pending)
+
+
+# ------------------------------------------------------------------------------ delay with re-entrant feedback
+def _exp_delay_fb(eff, d, fb, ch):
+    """Reference run of delay(d) over a hot source into which the downstream, from inside the delivery of its k-th element,
+    synchronously pushes an error (fb[k] == "E": delivered immediately, pending elements dropped) or a new element
+    (fb[k] == "N": value 1000+k, due d later).  Deliveries and source notifications of one instant: either order (one per instant)."""
+    q, out, dec = [], [], {}
+    i = delivered = 0
+    src_done = False
+    while True:
+        ts = eff[i][0] if (i < len(eff) and not src_done) else None
+        td = q[0][0] if q else None
+        if ts is None and td is None:
+            return out
+        timer = td is not None and (ts is None or td < ts)
+        if not timer and td is not None and td == ts:
+            if td not in dec:
+                dec[td] = ch()
+            timer = dec[td]
+        if timer:
+            due, k, v = q.pop(0)
+            if k == "C":
+                out.append([due, "C", None])
+                return out
+            out.append([due, "N", v])
+            kidx = delivered
+            delivered += 1
+            if kidx in fb and not src_done:
+                if fb[kidx] == "E":
+                    out.append([due, "E", ["exc", "fb"]])
+                    return out
+                q.append([due + d, "N", ["int", 1000 + kidx]])
+        else:
+            T, k, v = eff[i]
+            i += 1
+            if k == "N":
+                q.append([T + d, "N", cv(v)])
+            elif k == "C":
+                q.append([T + d, "C", None])
+                src_done = True
+            else:
+                out.append([T, "E", ["exc", v]])
+                return out
+
+
+def _run_delay_fb(case):
+    lab = mk_lab(case["clock"])
+    s0, d = case["s0"], case["d"]
+    src = lab.source(case["src"])
+    fb = {int(k): v for k, v in case["fb"]}
+    seen = [0]
+
+    def feedback(_v):
+        k = seen[0]
+        seen[0] += 1
+        if k in fb:
+            for o in list(src.observers):  # re-entrant: the source speaks while a delayed element is being delivered
+                if fb[k] == "E":
+                    o.on_error(Tagged("fb"))
+                else:
+                    o.on_next(1000 + k)
+
+    probes = execute_all(lab, src.pipe(ops.delay(targ(lab, case["form"], d)), ops.do_action(feedback)), [s0])
+    eff = effective(case["src"], s0)
+    outs = outcomes(lambda ch: _exp_delay_fb(eff, d, fb, ch))
+    cls = [f"form:{case['form']}", f"clock:{case['clock']}", "feedback:" + "+".join(sorted(set(fb.values())))]
+    tr = probes[0].trace()
+    if any(e[2] == ["exc", "fb"] for e in tr if e[1] == "E"):
+        cls.append("feedback-error-delivered")
+        if any(o[-1][1] == "E" and o[-1][2] == ["exc", "fb"] and sum(1 for m in eff if m[1] == "N") > sum(1 for e in o if e[1] == "N") for _, o in outs):
+            cls.append("feedback-error-drops-pending")
+    if any(e[1] == "N" and e[2][1] >= 1000 for e in tr):
+        cls.append("feedback-element-delivered")
+    n = sum(1 for m in eff if m[1] == "N")
+    return judge("delay", case, lab, probes[0], outs, cls, n >= 2 and bool(cls[3:]))
 
 
 # ------------------------------------------------------------------------------ delay_subscription
@@ -364,12 +440,22 @@ def _stamp_cases(draw):
     return {"clock": draw(st.sampled_from(CLOCKS)), "s0": s0, "src": spec, "op": draw(st.sampled_from(["timestamp", "time_interval"])), "s1": second_sub(draw, s0), "sch": sched_modes(draw)}
 
 
+@st.composite
+def _delay_fb_cases(draw):
+    d = draw(st.sampled_from([0, 1, 2, 3]))
+    s0, spec = draw(sources(d=d, max_len=5, min_len=1, kinds=("hot",)))
+    ks = sorted(set(draw(st.lists(st.integers(0, 3), min_size=1, max_size=2))))
+    fb = [[k, draw(st.sampled_from(["E", "E", "N"]))] for k in ks]
+    return {"clock": draw(st.sampled_from(CLOCKS)), "s0": s0, "src": spec, "d": d, "form": draw(st.sampled_from(FORMS_REL)), "fb": fb}
+
+
 def checks(tier):
     T = 16
     # thorough explores deeper: up to 10 elements per timeline (8 for delay_with_mapper) and delays up to 8 ticks
     deep = {} if tier == "quick" else {"max_len": 10, "ds": (0, 1, 2, 3, 5, 8, 8)}
     return [
         Check("delay", _run_delay, strategy=_delay_cases(**deep), examples={"quick": 2400, "thorough": T * 12000}, shards={"quick": 4, "thorough": 16}),
+        Check("delay_feedback", _run_delay_fb, strategy=_delay_fb_cases(), examples={"quick": 800, "thorough": T * 4000}, shards={"quick": 4, "thorough": 16}),
         Check("delay_subscription", _run_delaysub, strategy=_delay_cases(other_ok=False), examples={"quick": 1200, "thorough": T * 5000}, shards={"quick": 4, "thorough": 16}),
         Check("delay_with_mapper", _run_dwm, strategy=_dwm_cases(max_len=4 if tier == "quick" else 8), examples={"quick": 2000, "thorough": T * 8000}, shards={"quick": 4, "thorough": 16}),
         Check("stamp", _run_stamp, strategy=_stamp_cases(), examples={"quick": 800, "thorough": T * 4000}, shards={"quick": 4, "thorough": 16}),
